@@ -28,6 +28,9 @@ def key_family(name, n, rng=None):
         ks = sorted(ks)
     elif name == "medcomp":      # a distinct prefix followed by a compressible run (the compressed index record is somewhat shorter than the entry)
         ks = [b"key-%05d-" % i + b"k" * 120 for i in range(n)]
+    elif name == "fix20":        # fixed 20-byte keys (the width of the library's Byte20KeyMapper), e.g. SHA-1 sized
+        ks = sorted(bytes(rng.randrange(256) for _ in range(18)) + bytes([i // 256, i % 256]) for i in range(n))
+        ks = [bytes([i // 256, i % 256]) + k[:18] for i, k in enumerate(ks)]
     elif name == "biglast":      # last key of several KiB dominating the index
         ks = [(i + 1).to_bytes(4, "big") for i in range(n - 1)] + [b"\xff" * 6000]
     else:
@@ -36,7 +39,7 @@ def key_family(name, n, rng=None):
     return ks
 
 
-KEY_FAMILIES = ["be4", "empty0", "prefix", "marker", "ascii", "nonutf8", "long", "biglast"]
+KEY_FAMILIES = ["be4", "empty0", "prefix", "marker", "ascii", "nonutf8", "long", "biglast", "fix20"]
 
 
 def value_family(name, tokens, rng=None):
